@@ -9,6 +9,7 @@ import (
 
 	remoteexecution "github.com/bazelbuild/remote-apis/build/bazel/remote/execution/v2"
 	"github.com/buildbarn/bb-remote-execution/pkg/cas"
+	"github.com/buildbarn/bb-remote-execution/pkg/filesystem/access"
 	"github.com/buildbarn/bb-remote-execution/pkg/filesystem/virtual"
 	"github.com/buildbarn/bb-storage/pkg/digest"
 	"github.com/buildbarn/bb-storage/pkg/eviction"
@@ -59,7 +60,7 @@ func (f *countingSymlinkFactory) LookupSymlink(target path.Parser) (virtual.Link
 // execFetch calls FetchContents of a fresh casInitialContentsFetcher for one
 // digest. Result: `ok unlinked=n [listing]` or `err:code balanced|leaked ...`;
 // `twice` reports a leaf that was unlinked more than once.
-func (r *rig) execFetch(hash string, size int64) (out string, twice bool) {
+func (r *rig) execFetch(hash string, size int64, monitored bool) (out string, twice bool) {
 	d, err := r.digestOf(hash, size)
 	if err != nil {
 		return "bad-op", false
@@ -68,6 +69,9 @@ func (r *rig) execFetch(hash string, size int64) (out string, twice bool) {
 		virtual.NewBlobAccessCASFileFactory(r.ctx, r.cas, r.logger), r.ha.New())}
 	sf := &countingSymlinkFactory{base: r.symlinks}
 	icf := virtual.NewCASInitialContentsFetcher(r.ctx, cas.NewDecomposedDirectoryWalker(r.fetcher, d), cf, sf, r.df)
+	if monitored {
+		icf = virtual.NewAccessMonitoringInitialContentsFetcher(icf, access.NewBloomFilterComputingUnreadDirectoryMonitor())
+	}
 	children, ferr := icf.FetchContents(func(name path.Component) virtual.FileReadMonitor { return nil })
 	created, unlinked := 0, 0
 	for _, l := range append(append([]*countingLeaf(nil), cf.leaves...), sf.leaves...) {
